@@ -16,11 +16,13 @@
      KF_GlobalSort    the index log is applied globally sorted            (D2, fixed in 666255d)
      KF_RequeueEarly  re-queue before the delivered marks are stored      (D18, fixed)
      KF_EarlyRelease  id leaves active_ids when the removal is spawned    (D16, fixed)
-     KF_LateClaim     enqueue() claims the id only after joining all writes (D22, fixed) *)
+     KF_LateClaim     enqueue() claims the id only after joining all writes (D22, fixed)
+     KF_LateActive    a dispatched id becomes active only when _dequeue's get() has answered, so an
+                      announcement or listing in between adds a second timetable entry (D23, fixed) *)
 EXTENDS Integers, Sequences, FiniteSets, TLC, SequencesExt
 
 CONSTANTS NMsg, NRcpt, IndexLog, StoreYields, Backoff, MaxTime, Flushes, Announces, Loads,
-          KF_GlobalSort, KF_RequeueEarly, KF_EarlyRelease, KF_LateClaim, GetEarly
+          KF_GlobalSort, KF_RequeueEarly, KF_EarlyRelease, KF_LateClaim, KF_LateActive, GetEarly
 
 Msgs == 1..NMsg
 Rcpts == 1..NRcpt
@@ -209,13 +211,15 @@ RmStep(g) ==
   /\ gs' = gs \ {g} /\ cur' = 0
   /\ UNCHANGED <<now, queued, nextg, accepted, settled, failed, bounced, viol, due, flushed, nflush, nann, nload, toenq>>
 
-(* ---- _dequeue: store.get, then (without yielding in between) the active-id check and the spawn.
+(* ---- _dequeue: store.get, then (without yielding in between) the spawn of the attempt.  The id was claimed
+        (active) by the dispatcher; a message that is gone releases the claim.  With KF_LateActive the claim is made
+        only here, after the answer.
         A yielding backend answers later than it is asked; the message state is read when the answer
         is delivered, unless GetEarly (answer computed when asked and delivered later: the residual
         window discussed in DESIGN.md section 6, D16). *)
 DeqFinish(g, rec) ==
-  IF ~rec.present THEN /\ gs' = gs \ {g} /\ active' = active /\ nextg' = nextg
-  ELSE IF g.m \notin active
+  IF ~rec.present THEN /\ gs' = gs \ {g} /\ active' = (IF KF_LateActive THEN active ELSE active \ {g.m}) /\ nextg' = nextg
+  ELSE IF ~KF_LateActive \/ g.m \notin active
        THEN /\ active' = active \cup {g.m}
             /\ gs' = Spawn(gs \ {g}, [G("att", g.m) EXCEPT !.rs = GetRcpts(rec), !.att = rec.att], nextg) /\ nextg' = nextg + 1
        ELSE active' = active /\ gs' = gs \ {g} /\ nextg' = nextg
@@ -230,23 +234,29 @@ DeqStep(g) ==
         /\ DeqFinish(g, IF GetEarly THEN g.tmp[1] ELSE store[g.m]) /\ cur' = 0
   /\ UNCHANGED <<now, store, queued, qids, accepted, settled, failed, bounced, viol, due, flushed, nflush, nann, nload, toenq>>
 
-(* ---- scheduler: dispatch everything that is due (one atomic block: pools are unbounded) *)
-RECURSIVE SpawnDeq(_, _, _)
-SpawnDeq(set, es, n) == IF es = <<>> THEN set ELSE SpawnDeq(Spawn(set, G("deq", Head(es)[2]), n), Tail(es), n + 1)
+(* ---- scheduler: dispatch everything that is due (one atomic block: pools are unbounded).  _dispatch claims the
+        id (active) before the fetch is spawned and skips an id that is already active. *)
+RECURSIVE SpawnDeq(_, _, _, _)
+SpawnDeq(set, es, n, act) ==
+  IF es = <<>> THEN <<set, n, act>>
+  ELSE LET m == Head(es)[2] IN
+       IF ~KF_LateActive /\ m \in act THEN SpawnDeq(set, Tail(es), n, act)
+       ELSE SpawnDeq(Spawn(set, G("deq", m), n), Tail(es), n + 1, IF KF_LateActive THEN act ELSE act \cup {m})
 DueCount == Cardinality({i \in 1..Len(queued) : queued[i][1] <= now})
 SchedStep ==
   /\ cur = 0 /\ DueCount > 0
-  /\ LET k == DueCount IN
-     /\ gs' = SpawnDeq(gs, SubSeq(queued, 1, k), nextg) /\ nextg' = nextg + k
+  /\ LET k == DueCount
+         r == SpawnDeq(gs, SubSeq(queued, 1, k), nextg, active) IN
+     /\ gs' = r[1] /\ nextg' = r[2] /\ active' = r[3]
      /\ queued' = SubSeq(queued, k + 1, Len(queued))
      /\ qids' = {queued[i][2] : i \in (k + 1)..Len(queued)}
-  /\ UNCHANGED <<now, store, active, cur, accepted, settled, failed, bounced, viol, due, flushed, nflush, nann, nload, toenq>>
+  /\ UNCHANGED <<now, store, cur, accepted, settled, failed, bounced, viol, due, flushed, nflush, nann, nload, toenq>>
 Flush ==
   /\ cur = 0 /\ nflush < Flushes
-  /\ gs' = SpawnDeq(gs, queued, nextg) /\ nextg' = nextg + Len(queued)
+  /\ LET r == SpawnDeq(gs, queued, nextg, active) IN gs' = r[1] /\ nextg' = r[2] /\ active' = r[3]
   /\ flushed' = flushed \cup {queued[i][2] : i \in 1..Len(queued)}
   /\ queued' = <<>> /\ qids' = {} /\ nflush' = nflush + 1
-  /\ UNCHANGED <<now, store, active, cur, accepted, settled, failed, bounced, viol, due, nann, nload, toenq>>
+  /\ UNCHANGED <<now, store, cur, accepted, settled, failed, bounced, viol, due, nann, nload, toenq>>
 \* storage wait() announces an id (possibly again); start-up load lists what is stored
 Announce ==
   /\ cur = 0 /\ nann < Announces
